@@ -817,8 +817,27 @@ def build(unit, repo_root, source_map=None):
         else:
             selected = []
             for s in itemspecs:
-                selected.append(src.find_item(s))
+                if s.startswith("fn ") and s.count("::") == 1:
+                    # a method cut out of (possibly generic) impl block: re-wrapped in `impl <Type> { .. }`
+                    f, imp = src.find_fn(s[3:])
+                    selected.append(("method", s[3:], f))
+                else:
+                    selected.append(src.find_item(s))
         for it in selected:
+            if isinstance(it, tuple):
+                _, q, f = it
+                ty = q.split("::")[0]
+                spec = unit.fns.get(q)
+                if spec:
+                    used.add(q)
+                txt = r_pub_item(generic_rewrites(src.item_text(f)))
+                txt, lost = splice_fn(txt, spec)
+                for a in lost:
+                    em.lost_anchors.append((q, a))
+                line = src.line_of(src.toks[f.extra["kw"]].start)
+                em.functions.append({"name": q, "file": rel, "line": line, "contract": bool(spec and (spec.requires or spec.ensures))})
+                chunks.append("impl %s {\n// @fn %s @src %s:%d\n%s\n}\n" % (ty, q, rel, line, txt))
+                continue
             if it.kind == "impl":
                 tr, st = rs.impl_self_type(it.name)
                 sub = src.impl_items(it)
